@@ -158,6 +158,28 @@ M("c13.twin.dsa.spki.ints", "C13", "lib/Crypto/PublicKey/DSA.py",
   "    dss = DerSequence().decode(params or emb_params, only_ints_expected=True, nr_elements=3)\n    p, q, g = dss[0], dss[1], dss[2]\n", twin=True)
 M("c13.twin.asn1.guard", "C13", ASN1, "                    if len(encoded_length) == 0:\n", "                    if not encoded_length:\n", twin=True)
 
+# ---------------------------------------------------------------- C04 toy groups
+ECCPY = "lib/Crypto/PublicKey/ECC.py"
+DSAPY = "lib/Crypto/PublicKey/DSA.py"
+M("c04.toy.ecdsa.verify.reduce.revert", "C04", ECCPY, "return (point1 + point2).x % order == rs[0]", "return (point1 + point2).x == rs[0]", "K-pw|ecdsa.toy")
+M("c04.toy.ecdsa.sign.blind", "C04", ECCPY, "s = inv_blind_k * (blind * z + blind_d * r) % order", "s = inv_blind_k * (blind * z + self._d * r) % order", "K-pw|ecdsa.toy.sign")
+M("c04.toy.ecdsa.verify.u2", "C04", ECCPY, "point2 = self.pointQ * ((sinv * rs[0]) % order)", "point2 = self.pointQ * ((sinv * rs[1]) % order)", "K-pw|ecdsa.toy")
+M("c04.toy.dsa.verify.modq", "C04", DSAPY, "v = (pow(g, u1, p) * pow(y, u2, p) % p) % q", "v = (pow(g, u1, p) * pow(y, u2, p) % q) % p", "K-pw|dsa.toy")
+M("c04.toy.dsa.sign.r", "C04", DSAPY, "r = pow(g, k, p) % q  # r = (g**k mod p) mod q", "r = pow(g, k, q) % p", "K-pw|dsa.toy.sign")
+M("c04.twin.toy.ecdsa.verify", "C04", ECCPY, "return (point1 + point2).x % order == rs[0]", "v = (point2 + point1).x % order\n        return v == rs[0]", twin=True)
+
+DSSPY = "lib/Crypto/Signature/DSS.py"
+M("c04.rfc6979.assert.revert", "C04", DSSPY, "assert 0 <= int_mod_q < self._order", "assert 0 < int_mod_q < self._order", "K-pw|rfc6979.conversions")
+M("c04.rfc6979.bits2int.shift", "C04", DSSPY, "if b_len > q_len:", "if b_len >= q_len + 8:", "K-pw|rfc6979.conversions")
+M("c04.rfc6979.bits2octets.reduce", "C04", DSSPY, "        if z1 < self._order:\n            z2 = z1", "        if z1 <= self._order:\n            z2 = z1", "K-pw|rfc6979.conversions")
+M("c06.neutral.edwards.revert", "C06", "lib/Crypto/PublicKey/_point.py", "return self.xy == (0, 1)", "return self.x == 0", "K-pw|neutral.predicate")
+RSAPY = "lib/Crypto/PublicKey/RSA.py"
+M("c07.toy.rsa.crt.h", "C07", RSAPY, "h = ((m2 - m1) * self._u) % self._q", "h = ((m1 - m2) * self._u) % self._q", "K-pw|rsa.toy.decrypt")
+M("c07.toy.rsa.crt.abs", "C07", RSAPY, "h = ((m2 - m1) * self._u) % self._q", "h = (abs(m2 - m1) * self._u) % self._q", "K-pw|rsa.toy.decrypt")
+M("c04.toy.rsa.unblind", "C04", RSAPY, "                    r.inverse(self._n),\n                    mp,", "                    r.inverse(self._q),\n                    mp,", "K-pw|rsa.toy.decrypt")
+M("c07.toy.rsa.range", "C07", RSAPY, "        if not 0 <= ciphertext < self._n:", "        if not 0 <= ciphertext <= self._n:", "K-pw|rsa.toy.range")
+M("c07.twin.toy.rsa.crt", "C07", RSAPY, "mp = h * self._p + m1", "mp = m1 + self._p * h", twin=True)
+
 # ---------------------------------------------------------------- C03 object-level new()
 M("c03.fresh.kmac256.revert", "C03", "lib/Crypto/Hash/KMAC128.py", "        if self._rate == 136:\n            from . import KMAC256\n            return KMAC256.new(**kwargs)\n\n", "", "K|fresh.KMAC256")
 M("c03.fresh.sha512.truncate", "C03", "lib/Crypto/Hash/SHA512.py", "return SHA512Hash(data, self._truncate)", "return SHA512Hash(data, None)", "K|fresh.SHA512")
